@@ -75,7 +75,7 @@ type Interp struct {
 	maxSteps  int64
 	feasTimeoutMs  int
 	obligTimeoutMs int
-	obligLog  func([]*Term)
+	obligLog  func([]*Term, Result)
 	exitExpected bool
 
 	// per-path state
